@@ -78,6 +78,7 @@ type Tr struct {
 	knownRtype map[*Term]*Term
 	pathRtype map[*Term]*Term
 	relStructs []*types.Named
+	relStructsAll []*types.Named
 	streamUse int
 	privateRegs []*Term
 	typeFactCache map[string]bool
